@@ -16,7 +16,7 @@ pub static DEF: PropDef = PropDef {
     id: "C16",
     level: "exploration",
     engine: "query",
-    rule: "one run = a real CachedObjectStore + TieredCache (L1 from 300 bytes, i.e. evict on every insert, to 8 MB; no disk tier in the seeded phase, foyer disk tier of 64 KB..1 MB on /dev/shm in the thorough-only 'l2' phase) over the simulated store, a growing set of 80..200 write-once objects of 1 byte..6 KB (one run in ten: 20..50 objects, one or two of them 2..5 MiB) written in 3..5 waves (a third of the runs with writes that fail before / after taking effect, create-only uploads, a create-only re-upload of an existing name that the store refuses, and a failed write of a never-written name; the model is what the backing store holds after each attempt), and 2..4 concurrent reader tasks issuing 30..80 reads each (whole GET, get_range, get_ranges with nested / touching / out-of-order ranges, GET with range option, If-Match / If-None-Match with right and wrong ETags, If-Modified-Since / If-Unmodified-Since with satisfied and unsatisfied dates, never-written keys incl. keys that share a file name or prefix with written ones); the inner store's requests are seeded scheduling points (concurrent misses on the same and on different keys), half of the runs inject request failures on the miss path, a third drop one read in eight at a seeded point (reader went away: a dropped leader of a coalesced miss must not poison what the others get); whenever a read returns bytes they must equal the backing store's object (the requested range of it), a missing key must fail; distinct = distinct grant sequence; non-trivial = completed AND an L1 eviction happened (misses on re-read keys)",
+    rule: "one run = a real CachedObjectStore + TieredCache (L1 from 300 bytes, i.e. evict on every insert, to 8 MB; no disk tier in the seeded phase, foyer disk tier of 64 KB..1 MB on /dev/shm in the thorough-only 'l2' phase) over the simulated store, a growing set of 80..200 write-once objects of 0 bytes..6 KB (one run in ten: 20..50 objects, one or two of them 2..5 MiB) written in 3..5 waves (a third of the runs with writes that fail before / after taking effect, create-only uploads, a create-only re-upload of an existing name that the store refuses, and a failed write of a never-written name; the model is what the backing store holds after each attempt), and 2..4 concurrent reader tasks issuing 30..80 reads each (whole GET, get_range, get_ranges with nested / touching / out-of-order ranges, GET with range option, If-Match / If-None-Match with right and wrong ETags, If-Modified-Since / If-Unmodified-Since with satisfied and unsatisfied dates, never-written keys incl. keys that share a file name or prefix with written ones); the inner store's requests are seeded scheduling points (concurrent misses on the same and on different keys), half of the runs inject request failures on the miss path, a third drop one read in eight at a seeded point (reader went away: a dropped leader of a coalesced miss must not poison what the others get); whenever a read returns bytes they must equal the backing store's object (the requested range of it), a missing key must fail, and in a run without injected request failures a read of an existing object with no (or a satisfied) precondition must succeed; distinct = distinct grant sequence; non-trivial = completed AND an L1 eviction happened (misses on re-read keys)",
     quick_runs: 5000,
     thorough_runs: 30_000,
     run_cap_ms: 60_000,
@@ -101,7 +101,7 @@ fn scen(spec: RunSpec) -> ScenFut {
             let upto = total * (wv + 1) / waves;
             sim::set_cfg(|c| c.enabled = false);
             for k in written..upto {
-                let mut len = [1usize, 17, 200, 900, 3000, 6000][sim::w(6) as usize];
+                let mut len = [1usize, 17, 200, 900, 3000, 6000, 0][sim::w(7) as usize]; // (an empty object is an object)
                 if big_run && (k == written || (k == written + 1 && sim::w_bool(50))) && wv < 2 {
                     len = [(2 << 20) + (1 << 19), (3 << 20) + 17, (5 << 20) + 1, 2 << 20][sim::w(4) as usize];
                     sim::probe("object-of-several-MiB");
@@ -349,9 +349,14 @@ fn scen(spec: RunSpec) -> ScenFut {
                                     sim::violation("C16/precondition-ignored/date", format!("reader {r}: {what} of {name} returned the object; the backing store answers such a request with NotModified / Precondition"));
                                 }
                             }
-                            (Some(_), Err(_)) => {
+                            (Some(_), Err(e)) => {
                                 // a read may fail (injected fault, failed precondition); it may never return wrong data
                                 sim::probe("read-error");
+                                // ... but in a run without injected request failures, a read of an object the backing store
+                                // holds, with no precondition or a satisfied one, has no reason to fail
+                                if !faults && !what.contains("if_match(wrong)") && !what.contains("[precondition not satisfied]") {
+                                    sim::violation("C16/existing-object-unreadable", format!("reader {r}: {what} of {name} ({} bytes in the backing store) failed in a run without injected request failures: {e}", want.as_ref().map(|w| w.0.len()).unwrap_or(0)));
+                                }
                             }
                         }
                     }
